@@ -84,7 +84,12 @@ pub fn refine(kind: Kind, buf: &[u8], cfg: u8, obs: &Obs, mst: St, msize: u64, m
         let d = format!("{}: implementation {} but reference model {} (model stopped in {})", kind.name(), show(&obs.st), show(&mst), es::name(mout.end_state));
         match (obs.st, mst) {
             (St::Err(a), St::Err(b)) if a != b => diffs.push((10, d)),
-            (St::Err(E::TooManyHeaders), _) | (_, St::Err(E::TooManyHeaders)) => diffs.push((10, d)),
+            (St::Err(E::TooManyHeaders), _) | (_, St::Err(E::TooManyHeaders)) => {
+                // TooManyHeaders exactly when the surplus line completes: C10's last sentence and
+                // C17's capacity law say the same thing
+                diffs.push((10, d.clone()));
+                diffs.push((17, d));
+            }
             _ => {
                 // start line or header block?
                 let real_in_start = match obs.st {
@@ -456,6 +461,12 @@ pub fn m_frame(kind: Kind, buf: &[u8], cfg: u8, obs: &Obs, v: &mut Vec<Violation
                         bad(format!("Partial although an empty line is already in the buffer (ends at {})", nl + 1));
                         break;
                     }
+                    // with allow_space_before_first_header_name a whitespace-only line directly
+                    // after the start line (no header can have been stored yet) ends the head too
+                    if s_opt && ls == sl && line_is_blank_ws(line) {
+                        bad(format!("Partial although a whitespace-only line directly after the start line ends the head at {} (allow_space_before_first_header_name)", nl + 1));
+                        break;
+                    }
                     ls = nl + 1;
                 }
             }
@@ -527,6 +538,10 @@ pub fn m_store(kind: Kind, obs: &Obs, model_count: Option<usize>, v: &mut Vec<Vi
 
 /// C19 allocation monitor.
 pub fn m_alloc(obs: &Obs, v: &mut Vec<Violation>) {
+    if obs.st != St::Panic && obs.allocs > 0 && obs.env_lookups > 0 {
+        v.push(Violation { prop: 19, oracle: "M-alloc", detail: format!("{} allocator call(s) during the parse call (last size {}) after {} environment lookup(s) that found the variable set", obs.allocs, obs.alloc_size, obs.env_lookups) });
+        return;
+    }
     if obs.st != St::Panic && obs.allocs > 0 {
         v.push(Violation { prop: 19, oracle: "M-alloc", detail: format!("{} allocator call(s) during the parse call (last size {})", obs.allocs, obs.alloc_size) });
     }
